@@ -1438,6 +1438,15 @@ class StateEngine(object):
                 context["Tracer"] = inject_span("text_map", scope.span, self.logger)
 
 
+        """
+        Set when a Map or Parallel state has nothing to launch. In that case
+        the event that entered the state is itself the terminal event of any
+        enclosing branch, so asl_state_collect_results must hold its id (and
+        acknowledge it when all the results have been collected) exactly as
+        it does for any other terminal state of a branch.
+        """
+        empty_fan_out = False
+
         # ----------------------------------------------------------------------
         def handle_error(state, error_type, error_message):
             """
@@ -3009,6 +3018,9 @@ class StateEngine(object):
                 if length:
                     self.event_dispatcher.acknowledge(id)
                 else:
+                    nonlocal empty_fan_out
+                    empty_fan_out = True
+
                     """
                     https://states-language.net/spec.html#using-paths
 
@@ -3159,8 +3171,10 @@ class StateEngine(object):
             event_ids = branch_results["ids"]
 
             result[index] = data
-            if previous_state_type != "Parallel" and previous_state_type != "Map":
+            nonlocal empty_fan_out
+            if empty_fan_out or (previous_state_type != "Parallel" and previous_state_type != "Map"):
                 event_ids[index] = id
+            empty_fan_out = False
 
             #print("----- asl_state_collect_results -----")
             #print(result)
